@@ -1,7 +1,7 @@
 CONSTANTS
   Kinds = {"run", "stage", "subs", "suspend", "lazy_stage", "monitor_during", "fly_during"}
-  MaxOps = 5
-  PMsgs = 2
+  MaxOps = 6
+  PMsgs = 3
   Thrown = {"Err", "Stop", "Abort"}
   PRaise = {"ErrI"}
   CatchThrow = TRUE
